@@ -10,54 +10,72 @@ Local Open Scope Z_scope.
     the nonce equals the account sequence and is consumed, WeiToNative(gas limit × price) is deducted up front *)
 Inductive admit_seq : st -> list leaf -> st -> Prop :=
 | admit_nil s : admit_seq s [] s
-| admit_cons s a n g p v r s' :
+| admit_cons s a n g p v x r s' :
     n = seq_of s a ->
     (g * p) / WEI <= bal_of s a ->
     admit_seq (set_seq (add_fee (add_bal s a (- ((g * p) / WEI))) ((g * p) / WEI)) a (S n)) r s' ->
-    admit_seq s (EthTx a n g p v :: r) s'.
+    admit_seq s (EthTx a n g p v x :: r) s'.
 
 (** the messages of a tx, when they are all direct MsgEthereumTx *)
 Fixpoint direct_eth (ms : list msg) : option (list leaf) :=
   match ms with
   | [] => Some []
-  | Leaf (EthTx a n g p v) :: r => option_map (cons (EthTx a n g p v)) (direct_eth r)
+  | Leaf (EthTx a n g p v x) :: r => option_map (cons (EthTx a n g p v x)) (direct_eth r)
   | _ => None
   end.
+
+(** number of messages of sender [a] *)
+Definition leaf_from_is (a : addr) (l : leaf) : bool :=
+  match l with EthTx b _ _ _ _ _ => Nat.eqb a b | _ => false end.
+Definition count_from (a : addr) (ls : list leaf) : nat := List.length (filter (leaf_from_is a) ls).
 
 (** ---------------------------------------------------------------- observed traces *)
 Record ethobs := { eo_id : addr; eo_seq0 : nat; eo_dseq : Z; eo_dbal : Z }.
 Record txobs := {
   o_ok : bool;
-  o_fired : list nat;     (* pre-order indices, among the Ethereum leaves of the tx, whose handler ran *)
-  o_eth : list ethobs;    (* every Ethereum account: sequence before, sequence delta, balance delta *)
-  o_dfee : Z              (* fee collector delta *)
+  o_fired : list nat;          (* pre-order indices, among the Ethereum leaves of the tx, whose handler ran *)
+  o_exec : list (Z * bool);    (* per fired handler, as reported by EventEthereumTx: gas used, VM error? *)
+  o_eth : list ethobs;         (* every Ethereum account: sequence before, sequence delta, balance delta *)
+  o_dfee : Z                   (* fee collector delta *)
 }.
 
 Definition is_evm (e : ext_option) : bool := match e with EvmExt => true | _ => false end.
-
-Definition leaf_from_is (a : addr) (l : leaf) : bool :=
-  match l with EthTx b _ _ _ _ => Nat.eqb a b | _ => false end.
 
 (** nonces of one account's messages are seq0, seq0+1, … *)
 Fixpoint nonces_from (n : nat) (ls : list leaf) : bool :=
   match ls with
   | [] => true
-  | EthTx _ m _ _ _ :: r => Nat.eqb m n && nonces_from (S n) r
+  | EthTx _ m _ _ _ _ :: r => Nat.eqb m n && nonces_from (S n) r
   | _ :: r => nonces_from n r
   end.
 
-Definition net_cost (l : leaf) : Z :=
-  match l with EthTx _ _ g p v => (g * p) / WEI - refund_of g p + v | _ => 0 end.
-Definition gas_fee (l : leaf) : Z :=
-  match l with EthTx _ _ g p _ => (g * p) / WEI - refund_of g p | _ => 0 end.
+(** a message together with what its handler reported *)
+Definition lx := (leaf * (Z * bool))%type.
+
+(** the sender's net charge: prepayment − refund of the gas NOT used + the value unless the VM failed *)
+Definition net_cost (le : lx) : Z :=
+  match le with (EthTx _ _ g p v _, (used, failed)) => (g * p) / WEI - refund_of g used p + (if failed then 0 else v) | _ => 0 end.
+Definition gas_fee (le : lx) : Z :=
+  match le with (EthTx _ _ g p _ _, (used, _)) => (g * p) / WEI - refund_of g used p | _ => 0 end.
+(** the reported gas lies between the intrinsic gas and the gas limit *)
+Definition exec_sane (le : lx) : bool :=
+  match le with (EthTx _ _ g _ _ x, (used, _)) => (x_intr x <=? used) && (used <=? g) | _ => true end.
+Definition prepaid (l : leaf) : Z := match l with EthTx _ _ g p _ _ => (g * p) / WEI | _ => 0 end.
 
 Definition sumZ (l : list Z) : Z := fold_right Z.add 0 l.
 
-Definition acct_paid (ls : list leaf) (e : ethobs) : bool :=
+Definition acct_paid (les : list lx) (e : ethobs) : bool :=
+  let mine := filter (fun le => leaf_from_is (eo_id e) (fst le)) les in
+  nonces_from (eo_seq0 e) (map fst mine)
+  && (eo_dseq e =? Z.of_nat (List.length mine))
+  && (- eo_dbal e =? sumZ (map net_cost mine)).
+
+(** admitted, then the messages failed as a whole: nonces consumed, prepayments kept, nothing else *)
+Definition acct_charged (ls : list leaf) (e : ethobs) : bool :=
   let mine := filter (leaf_from_is (eo_id e)) ls in
   nonces_from (eo_seq0 e) mine
   && (eo_dseq e =? Z.of_nat (List.length mine))
-  && (- eo_dbal e =? sumZ (map net_cost mine)).
+  && (- eo_dbal e =? sumZ (map prepaid mine)).
 
 Fixpoint nat_list_eqb (a b : list nat) : bool :=
   match a, b with
@@ -67,17 +85,36 @@ Fixpoint nat_list_eqb (a b : list nat) : bool :=
   end.
 
 (** an ACCEPTED tx with the EVM extension option: all its messages are direct Ethereum messages, each
-    fired once, each sender's nonces matched its sequence and were consumed once, each sender paid exactly
-    gas used × price + value, the fee collector kept gas used × price *)
+    fired once, each sender's nonces matched its sequence and were consumed once — whatever the EVM did with the
+    message (ran it, reverted, ran out of gas, refused it for lack of funds) —, each sender paid exactly
+    gas used × price (+ value unless the VM failed), the fee collector kept gas used × price *)
 Definition accepted_evm_okb (x : tx) (o : txobs) : bool :=
   match direct_eth (t_msgs x) with
   | None => false
   | Some ls =>
+      let les := combine ls (o_exec o) in
       nat_list_eqb (o_fired o) (seq 0 (List.length ls))
+      && Nat.eqb (List.length (o_exec o)) (List.length ls)
+      && forallb exec_sane les
       && forallb (fun l => existsb (fun e => leaf_from_is (eo_id e) l) (o_eth o)) ls
-      && forallb (acct_paid ls) (o_eth o)
-      && (o_dfee o =? sumZ (map gas_fee ls))
+      && forallb (acct_paid les) (o_eth o)
+      && (o_dfee o =? sumZ (map gas_fee les))
   end.
+
+Definition untouchedb (o : txobs) : bool :=
+  forallb (fun e => (eo_dseq e =? 0) && (eo_dbal e =? 0)) (o_eth o) && (o_dfee o =? 0).
+
+(** a REJECTED tx with the EVM extension option: either the ante handler turned it away (nothing moved at all) or
+    it admitted every message and the messages then failed as a whole: the admission stays — every nonce consumed
+    once, every prepayment kept by the fee collector *)
+Definition rejected_evm_okb (x : tx) (o : txobs) : bool :=
+  untouchedb o
+  || match direct_eth (t_msgs x) with
+     | None => false
+     | Some ls =>
+         forallb (fun l => existsb (fun e => leaf_from_is (eo_id e) l) (o_eth o)) ls
+         && forallb (acct_charged ls) (o_eth o) && (o_dfee o =? sumZ (map prepaid ls))
+     end.
 
 Definition untouched (e : ethobs) : Prop := eo_dseq e = 0 /\ eo_dbal e = 0.
 
@@ -89,18 +126,39 @@ Definition P_tx (x : tx) (o : txobs) : Prop :=
   Forall (fun e => 0 <= eo_dseq e /\ eo_dbal e <= 0) (o_eth o) /\ 0 <= o_dfee o /\
   (* a tx without the EVM extension option leaves every Ethereum account untouched *)
   (t_ext x <> EvmExt -> Forall untouched (o_eth o)) /\
-  (* admitted = nonce matched and consumed once, gas paid *)
-  (o_ok o = true -> t_ext x = EvmExt -> accepted_evm_okb x o = true).
+  (* admitted = nonce matched and consumed once, gas paid — seen on the committed state *)
+  (o_ok o = true -> t_ext x = EvmExt -> accepted_evm_okb x o = true) /\
+  (o_ok o = false -> t_ext x = EvmExt -> rejected_evm_okb x o = true).
 
-Definition P (t : list (tx * txobs)) : Prop := Forall (fun p => P_tx (fst p) (snd p)) t.
+(** a transaction the EVM ante chain admitted, as far as the committed state shows: accepted, or something moved *)
+Definition tx_admitted (x : tx) (o : txobs) : bool := is_evm (t_ext x) && (o_ok o || negb (untouchedb o)).
+Definition leaf_key (l : leaf) : list (addr * nat) := match l with EthTx a n _ _ _ _ => [(a, n)] | _ => [] end.
+Definition admitted_keys (p : tx * txobs) : list (addr * nat) :=
+  if tx_admitted (fst p) (snd p)
+  then match direct_eth (t_msgs (fst p)) with Some ls => flat_map leaf_key ls | None => [] end
+  else [].
+
+(** over a history: every transaction is fine, and no (sender, nonce) is admitted twice — in particular the same
+    signed bytes delivered again are turned away *)
+Definition P (t : list (tx * txobs)) : Prop :=
+  Forall (fun p => P_tx (fst p) (snd p)) t /\ NoDup (flat_map admitted_keys t).
 
 Definition Pb_tx (x : tx) (o : txobs) : bool :=
   (match o_fired o with [] => true | _ => is_evm (t_ext x) && match direct_eth (t_msgs x) with Some _ => true | None => false end end)
   && forallb (fun e => (0 <=? eo_dseq e) && (eo_dbal e <=? 0)) (o_eth o) && (0 <=? o_dfee o)
   && (is_evm (t_ext x) || forallb (fun e => (eo_dseq e =? 0) && (eo_dbal e =? 0)) (o_eth o))
-  && (negb (o_ok o && is_evm (t_ext x)) || accepted_evm_okb x o).
+  && (negb (o_ok o && is_evm (t_ext x)) || accepted_evm_okb x o)
+  && (negb (negb (o_ok o) && is_evm (t_ext x)) || rejected_evm_okb x o).
 
-Definition Pb (t : list (tx * txobs)) : bool := forallb (fun p => Pb_tx (fst p) (snd p)) t.
+Definition key_eqb (a b : addr * nat) : bool := Nat.eqb (fst a) (fst b) && Nat.eqb (snd a) (snd b).
+Fixpoint nodupb (l : list (addr * nat)) : bool :=
+  match l with
+  | [] => true
+  | k :: r => negb (existsb (key_eqb k) r) && nodupb r
+  end.
+
+Definition Pb (t : list (tx * txobs)) : bool :=
+  forallb (fun p => Pb_tx (fst p) (snd p)) t && nodupb (flat_map admitted_keys t).
 
 Lemma is_evm_true e : is_evm e = true <-> e = EvmExt.
 Proof. destruct e; simpl; split; intro H; try discriminate; auto. Qed.
@@ -109,7 +167,7 @@ Lemma Pb_tx_sound x o : Pb_tx x o = true -> P_tx x o.
 Proof.
   unfold Pb_tx, P_tx. intro H.
   repeat (apply andb_true_iff in H as [H ?]).
-  rename H into H1, H3 into H2, H2 into H3, H1 into H4, H0 into H5.
+  rename H into H1, H4 into H2, H3 into H3, H2 into H4, H1 into H5, H0 into H6.
   repeat split.
   - destruct (o_fired o); [congruence|]. apply andb_true_iff in H1 as [Ha _]. now apply is_evm_true.
   - destruct (o_fired o); [congruence|]. apply andb_true_iff in H1 as [_ Hb].
@@ -122,10 +180,28 @@ Proof.
     apply andb_true_iff in H4 as [A B]. unfold untouched. lia.
   - intros Hok Hevm. apply orb_true_iff in H5 as [H5|H5]; [|exact H5].
     rewrite Hok in H5. subst. rewrite Hevm in H5. simpl in H5. discriminate.
+  - intros Hok Hevm. apply orb_true_iff in H6 as [H6|H6]; [|exact H6].
+    rewrite Hok in H6. subst. rewrite Hevm in H6. simpl in H6. discriminate.
+Qed.
+
+Lemma key_eqb_eq a b : key_eqb a b = true <-> a = b.
+Proof.
+  destruct a as [a1 a2], b as [b1 b2]. unfold key_eqb. simpl. rewrite andb_true_iff, !Nat.eqb_eq.
+  split; [intros [-> ->]; reflexivity|intro E; inversion E; auto].
+Qed.
+
+Lemma nodupb_sound l : nodupb l = true -> NoDup l.
+Proof.
+  induction l as [|k r IH]; intro H; [constructor|].
+  simpl in H. apply andb_true_iff in H as [Hn Hr]. constructor; [|auto].
+  intro Hin. apply negb_true_iff in Hn.
+  assert (existsb (key_eqb k) r = true) by (apply existsb_exists; exists k; split; [exact Hin|now apply key_eqb_eq]).
+  congruence.
 Qed.
 
 Lemma Pb_sound t : Pb t = true -> P t.
 Proof.
-  unfold Pb, P. intro H. apply Forall_forall. intros p Hp.
+  unfold Pb, P. intro H. apply andb_true_iff in H as [H Hn]. split; [|now apply nodupb_sound].
+  apply Forall_forall. intros p Hp.
   rewrite forallb_forall in H. apply Pb_tx_sound. exact (H p Hp).
 Qed.
